@@ -6,6 +6,8 @@ own, not by the fuel bound.
 -/
 import CoapLite.Lemmas.LinkParse
 import CoapLite.Lemmas.Unquote
+import CoapLite.Lemmas.Shape.Link
+import CoapLite.Lemmas.Shape.Global
 
 namespace CoapLite.C17
 open CoapLite Link
@@ -82,5 +84,22 @@ example : toCow "\"".toList = [] ∧ toCow "\"abc".toList = "abc".toList ∧
 example : parseLinks "</a>;k=\"v,\";x,<b>".toList =
     [.link ⟨1, "/a".toList⟩ ⟨5, "k=\"v,\";x".toList⟩, .link ⟨15, "b".toList⟩ ⟨17, []⟩] := by decide +kernel
 example : parseLinks "<a>,x<b>".toList = [.link ⟨1, ['a']⟩ ⟨3, []⟩, .error] := by decide
+
+/-! ### tie to the source: the state the model carries is the state the code carries
+
+`Shapes.*` (Generated/Shapes.lean) is re-read from /repo/src on every run: the field lists of the
+structs this property's model mirrors, and every construct that introduces state outside the values
+the API passes around (thread-locals, `static mut`, cells, locks, atomics). The model accounts for
+exactly these fields (Lemmas/Shape/*.lean say which model field mirrors which); a field or a
+global added to the code – a memo, a marker, a digest in place of the data – breaks this theorem
+even if no explored input behaves differently. -/
+theorem state_shape_matches_source :
+    Shapes.globalState = [] ∧
+    Shapes.linkFormatWrite = [("write", "&'amutT"), ("is_first", "bool"), ("add_newlines", "bool"), ("error", "Option<core::fmt::Error>")] ∧
+    Shapes.linkAttributeWrite = [("0", "&'bmutLinkFormatWrite<'a,T>")] ∧
+    Shapes.linkFormatParser = [("inner", "&'astr")] ∧
+    Shapes.linkAttributeParser = [("inner", "&'astr")] ∧
+    Shapes.unquote = [("inner", "core::str::Chars<'a>"), ("state", "UnquoteState")] :=
+  ⟨ShapeTie.no_global_state, ShapeTie.linkFormatWrite, ShapeTie.linkAttributeWrite, ShapeTie.linkFormatParser, ShapeTie.linkAttributeParser, ShapeTie.unquote⟩
 
 end CoapLite.C17
